@@ -13,7 +13,7 @@ WITHOUT_FAIL=$(grep -c 'test result: FAILED' "$OUT/confirm.without.log")
 FAILING=$(grep -E "^error: test failed" "$OUT/confirm.with.log" | tr '\n' ';')
 RES=$(/verif/tools/try_mutant.sh "$DST/patch.diff" "$@" 2>&1)
 echo "$RES"
-python3 - "$ID" "$NAME" "$NEEDS" "$WITH_OK" "$WITH_FAIL" "$WITHOUT_FAIL" "$FAILING" "$RES" "$*" <<'PY'
+python3 - "${ID%b}" "$NAME" "$NEEDS" "$WITH_OK" "$WITH_FAIL" "$WITHOUT_FAIL" "$FAILING" "$RES" "$*" <<'PY'
 import sys, json, re
 ID, name, needs, wok, wfail, wofail, failing, res, checks = sys.argv[1:10]
 detected = {}
@@ -29,7 +29,7 @@ meta = {
   "needs_to_manifest": needs,
   "origin": "written by a fresh sub-agent that was given only the property text and a scratch worktree of /repo (nothing from /verif)",
   "confirmed_by_me": {
-     "command": "tools/confirm_mutant.sh %s  (cargo test --workspace --no-fail-fast --offline in the scratch worktree, with the change + demo, then with the change stashed)" % ID,
+     "command": "tools/confirm_mutant.sh %s[b]  (cargo test --workspace --no-fail-fast --offline in the scratch worktree, with the change + demo, then with the change stashed)" % ID,
      "with_change": {"test_result_ok_lines": int(wok), "test_result_failed_lines": int(wfail), "failing_targets": failing, "meaning": "every pre-existing target green; only the demonstration target fails"},
      "without_change": {"test_result_failed_lines": int(wofail), "meaning": "demonstration passes"},
   },
